@@ -1516,10 +1516,10 @@ pub fn gen_lock_convoy(rng: &mut Rng) -> Program {
             if rng.chance(1, 3) {
                 vec![Op::RLock { l: 0 }, Op::CRead { c: 0 }, Op::RUnlock { l: 0 }]
             } else {
-                vec![Op::WLock { l: 0 }, Op::CWrite { c: 0, v: vs.constant() }, Op::WUnlock { l: 0 }]
+                vec![Op::WLock { l: 0 }, Op::CRead { c: 0 }, Op::CWrite { c: 0, v: vs.constant() }, Op::WUnlock { l: 0 }]
             }
         } else {
-            vec![Op::Lock { m: 0 }, Op::CWrite { c: 0, v: vs.constant() }, Op::Unlock { m: 0 }]
+            vec![Op::Lock { m: 0 }, Op::CRead { c: 0 }, Op::CWrite { c: 0, v: vs.constant() }, Op::Unlock { m: 0 }]
         });
     }
     let (acq, rel, fin_acq, fin_rel) = if use_rw {
@@ -1531,7 +1531,17 @@ pub fn gen_lock_convoy(rng: &mut Rng) -> Program {
     } else {
         (Op::Lock { m: 0 }, Op::Unlock { m: 0 }, Op::Lock { m: 0 }, Op::Unlock { m: 0 })
     };
-    let holder = vec![acq, Op::Recv { c: 0 }, rel];
+    // the holder gives way inside its critical section: blocked on a channel fed by the thread that
+    // is started last, or by `yield_now` - loom then runs every other thread until it cannot
+    // continue, so ALL waiters are blocked in their acquire at the release (the channel variant
+    // also reaches orders in which a waiter has not arrived yet)
+    let by_yield = rng.chance(1, 2);
+    let holder = if by_yield {
+        let w = if matches!(acq, Op::RLock { .. }) { Op::CRead { c: 0 } } else { Op::CWrite { c: 0, v: vs.constant() } };
+        vec![acq, w, Op::Yield, rel]
+    } else {
+        vec![acq, Op::Recv { c: 0 }, rel]
+    };
     let sender = vec![Op::Send { c: 0, v: vs.constant() }];
     let mut t0: Vec<Op> = Vec::new();
     let mut threads: Vec<Vec<Op>> = Vec::new();
@@ -1539,7 +1549,11 @@ pub fn gen_lock_convoy(rng: &mut Rng) -> Program {
         threads.push(holder.clone());
     }
     threads.extend(bodies);
-    threads.push(sender);
+    if by_yield {
+        p.n_chan = 0;
+    } else {
+        threads.push(sender);
+    }
     for t in 1..=threads.len() {
         t0.push(Op::Spawn { t: t as u8 });
     }
